@@ -280,6 +280,8 @@ class Ctx:
     def oblige(self, name, goal, kind="post", meta=None):
         goal = to_z3_bool(goal)
         ob = Obligation(name, self.pc, goal, kind, dict(meta or {}, path=list(self.trace)))
+        if "focus_from" in ob.meta:
+            ob.meta["focus"] = list(self.pc[ob.meta.pop("focus_from"):])
         self.obligations.append(ob)
         return ob
 
@@ -1500,6 +1502,98 @@ def _purify(t, table, cache):
     return r
 
 
+def _abstract_big_sums(forms, min_args=3):
+    cands, seen = {}, set()
+
+    def addends(t):
+        if z3.is_app(t) and t.decl().kind() == z3.Z3_OP_ADD:
+            return sum(addends(ch) for ch in t.children())
+        return 1
+
+    def visit(t):
+        k = t.get_id()
+        if k in seen:
+            return
+        seen.add(k)
+        if z3.is_quantifier(t):
+            return
+        if z3.is_app(t) and t.decl().kind() == z3.Z3_OP_ADD and t.sort() == z3.RealSort() and addends(t) >= min_args:
+            cands[k] = t
+            return
+        for ch in t.children():
+            visit(ch)
+
+    for f in forms:
+        visit(f)
+    if not cands:
+        return None
+    pairs = [(t, z3.Const(fresh_name("big"), t.sort())) for t in cands.values()]
+    return [z3.substitute(f, *pairs) for f in forms]
+
+
+def _term_size(t, cache):
+    k = t.get_id()
+    if k not in cache:
+        cache[k] = 1 + (0 if z3.is_quantifier(t) else sum(_term_size(ch, cache) for ch in t.children()))
+    return cache[k]
+
+
+def _rewrite_by_equalities(hy, goal, min_size=8):
+    """orient every equality hypothesis big-term -> small-term and replace the big term wherever it
+    occurs (hypotheses and goal); under the hypotheses the rewritten goal is equivalent"""
+    cache = {}
+    pairs = []
+    for h in hy:
+        if z3.is_eq(h) and h.num_args() == 2 and z3.is_arith(h.arg(0)):
+            a, b = h.arg(0), h.arg(1)
+            sa, sb = _term_size(a, cache), _term_size(b, cache)
+            big, small = (a, b) if sa > sb else (b, a)
+            if sa == sb == 1 and z3.is_const(a) and z3.is_const(b) and not a.eq(b) \
+                    and a.decl().kind() == b.decl().kind() == z3.Z3_OP_UNINTERPRETED:
+                pairs.append((a, b) if str(a) > str(b) else (b, a))  # two names for one value
+            elif sa != sb and _term_size(big, cache) >= min_size and not any(big.eq(x) for x, _ in pairs):
+                pairs.append((big, small))
+    if not pairs:
+        return None
+    # biggest first, and small sides rewritten by the other rules, so that nested occurrences go too
+    pairs.sort(key=lambda p_: -_term_size(p_[0], cache))
+    out = list(hy) + [goal]
+    for _ in range(2):
+        out = [z3.substitute(f, *pairs) for f in out]
+    return [f for f in out[:-1] if not z3.is_true(z3.simplify(f))], out[-1]
+
+
+def prove_focus(focus, goal, timeout_ms=6000):
+    """first attempt for an obligation whose contract names the few facts it follows from: those
+    facts (a subset of the hypotheses) and the function axioms of the terms involved, nothing else"""
+    t0 = time.time()
+    qc = {}
+    hy = list(PI_AXIOMS) + [h for h in focus if not _has_quant(h, qc)]
+    variants = [(hy, goal)]
+    rw = _rewrite_by_equalities(hy, goal)
+    if rw is not None:
+        if z3.is_true(z3.simplify(rw[1])):
+            return True, time.time() - t0
+        variants.insert(0, rw)
+    for hy_, goal_ in variants:
+        fax = fn_axioms(hy_ + [goal_])
+        # generalisation: every maximal sum of three or more addends becomes one fresh constant, the
+        # same one wherever that sum occurs (terms are hash-consed), so that a moment written out as a
+        # dozen Sigma terms is a single unknown to the nonlinear solver.  Valid generalised => valid.
+        ab = _abstract_big_sums(hy_ + fax + [goal_])
+        if ab is not None:
+            if prove_qf(ab[:-1], ab[-1], timeout_ms // 4):
+                return True, time.time() - t0
+            r, _ = _z3_check(ab[:-1], ab[-1], timeout_ms // 3)  # keeps congruence of sqrt, atan2, ...
+            if r == z3.unsat:
+                return True, time.time() - t0
+    fax = fn_axioms(hy + [goal])
+    if prove_qf(hy + fax, goal, timeout_ms // 3):
+        return True, time.time() - t0
+    r, _ = _z3_check(hy + fax, goal, timeout_ms // 2, seeds=(0, 11))
+    return r == z3.unsat, time.time() - t0
+
+
 def prove_qf(hyps, goal, timeout_ms=10000):
     """fallback for nonlinear real goals: quantifier-free hypotheses only, uninterpreted
     applications purified, then z3's nlsat-based solver"""
@@ -1549,3 +1643,32 @@ def _cvc5_check(solver, timeout_ms):
         return out.splitlines()[0] if out else "unknown"
     finally:
         os.unlink(path)
+
+
+def prover_selftest():
+    """run at the start of every property check: goals that are false must not come back proved
+    (full portfolio and the focused stage with its rewriting / abstraction), easy valid ones must.
+    Raises RuntimeError (checker crash, exit 3) otherwise."""
+    x, y, k, a, b = z3.Reals("st_x st_y st_k st_a st_b")
+    F = z3.Function("st_F", z3.RealSort(), z3.RealSort())
+    big = lambda u: u + F(u) + F(u + 1) + F(u + 2)
+    bad = [
+        ("prove", lambda: prove([x > 0], x > 1, timeout_ms=2000)[0]),
+        ("prove-nl", lambda: prove([x > 0, y > 0], x * y > x, timeout_ms=2000)[0]),
+        ("focus", lambda: "proved" if prove_focus([x > 0, big(x) == k * big(y), k > 0], big(x) == big(y), 3000)[0] else "no"),
+        ("focus-names", lambda: "proved" if prove_focus([a == b + 1], F(a) == F(b), 3000)[0] else "no"),
+        ("focus-ratio", lambda: "proved" if prove_focus([big(x) == k * big(y), k > 0, big(y) > 0], big(x) / big(y) == 1, 3000)[0] else "no"),
+    ]
+    good = [
+        ("prove", lambda: prove([x > 1], x > 0, timeout_ms=2000)[0]),
+        ("focus-ratio", lambda: "proved" if prove_focus([big(x) == k * big(y), big(a) == k * big(b), k > 0, big(y) > 0, big(b) > 0],
+                                                        big(x) / big(a) == big(y) / big(b), 3000)[0] else "no"),
+        ("focus-names", lambda: "proved" if prove_focus([a == b], F(a) + big(a) == F(b) + big(b), 3000)[0] else "no"),
+    ]
+    for nm, f in bad:
+        if f() == "proved":
+            raise RuntimeError(f"prover self-test: the false goal '{nm}' was reported proved")
+    for nm, f in good:
+        if f() != "proved":
+            raise RuntimeError(f"prover self-test: the valid goal '{nm}' was not proved")
+    return len(bad) + len(good)
